@@ -153,7 +153,7 @@ Lemma flat_map_dangling : forall es lo v ext,
   flat_map (fun e : sent =>
               if value_eqb (s_key e) v
               then match sent_rid e with
-                   | Some id => match find_ent id es with Some x => if live x then [e_row x] else [] | None => [] end
+                   | Some id => match find_ent id es with Some x => [e_row x] | None => [] end
                    | None => []
                    end
               else []) ext = [].
@@ -173,7 +173,7 @@ Proof.
   intros sch [ea ra ka sa na] [eb rb kb sb nb] ext v He Hb Hs Hf. cbn [ents sidx nextid] in *. subst ea sa.
   unfold lookup1, scan, get_row. cbn [ents sidx].
   destruct (s_sec sch && indexable v); [|reflexivity].
-  rewrite flat_map_app. rewrite (flat_map_dangling eb nb v ext); [rewrite app_nil_r; reflexivity| |exact Hf].
+  rewrite flat_map_app. rewrite (flat_map_dangling eb nb v ext); [apply app_nil_r| |exact Hf].
   intros e He. apply (Hb e). exact He.
 Qed.
 
